@@ -17,8 +17,7 @@ theorem tokSingleBody_plain_run (name rest : Str) (n : Nat) (h : NameOk name = t
   induction name generalizing n with
   | nil => unfold tokSingleBody; simp
   | cons c cs ih =>
-    simp only [NameOk, List.all_cons, Bool.and_eq_true, nameCharOk, decide_eq_true_eq, ne_eq, Bool.not_eq_true',
-      decide_eq_false_iff_not] at h
+    simp only [NameOk, List.all_cons, Bool.and_eq_true, nameCharOk, decide_eq_true_eq, ne_eq] at h
     obtain ⟨⟨⟨⟨⟨h1, h2⟩, h3⟩, h4⟩, h5⟩, hr⟩ := h
     simp only [List.cons_append]
     unfold tokSingleBody
@@ -33,7 +32,7 @@ theorem quoted_single (name : Str) (h : NameOk name = true) : tokSingle (quoted 
   have := tokSingleBody_plain_run name [] 1 h
   simp only [quoted, List.cons_append, List.nil_append, tokSingle]
   have hq : (decide (SQ = SQ) || decide (SQ = DQ)) = true := by decide
-  simp only [hq, if_true, this]
+  simp only [this]
   simp; omega
 
 theorem classify_quoted (name : Str) (h : NameOk name = true) : classify (quoted name) = some .str1 := by
